@@ -84,7 +84,7 @@ def dec_case(rng, i, tier):
 
 def file_case(rng, i, tier):
     """opens that fail (faults, damaged or truncated chains), seeks that fail, repeated clears"""
-    links = V.gen_links(rng, rng.choice([1, 2, 3, 4]), tiny=True)
+    links = V.with_mux(rng, V.gen_links(rng, rng.choice([1, 2, 3, 4]), tiny=True), p=0.2)
     ops = ["case %d" % i, "live"] + links
     style = rng.random()
     size_guess = 3500 * len(links)
@@ -111,6 +111,36 @@ def file_case(rng, i, tier):
             ops.append("read 0 4096")
     ops += ["clear 0", "live", "clear 0", "live"]
     return ("c07", ops)
+
+
+def seek_sweep(rng, tier):
+    """every seek entry point with the k-th callback from its start failing (seek, read error, zero read, tell; one-shot and persisting): whatever the
+    call had allocated for itself when the callback failed has to be gone after ov_clear — and the open's own closing positioning seek likewise"""
+    out = []
+    j = 900000
+    ks = (0, 1, 2, 3) if tier == "quick" else range(0, 10)
+    for name in ("rawseek", "rawseeklap", "pcmseek", "pcmseekpage", "timeseek", "pcmseeklap", "pcmseekpagelap", "timeseeklap", "timeseekpage", "timeseekpagelap"):
+        for kind in (4, 1, 2, 5):
+            for k in ks:
+                if tier == "quick" and kind in (2, 5) and k % 2:
+                    continue
+                links = V.gen_links(rng, rng.choice([1, 2]), tiny=True)
+                ops = ["case %d" % j, "live"] + links + ["open 0 1 %d" % rng.choice([4096, 513])]
+                if rng.random() < 0.5:
+                    ops.append("read 0 %d" % rng.choice([64, 4096]))
+                arg = rng.randrange(0, 900) if name.startswith("time") else rng.randrange(0, 5000)
+                ops += ["fault 0 %d %d %d" % (k, kind, rng.randint(0, 1)), "%s 0 %d" % (name, arg), "nofault 0"]
+                if rng.random() < 0.5:
+                    ops += ["pcmseek 0 %d" % rng.randrange(0, 3000), "read 0 4096"]
+                ops += ["clear 0", "live", "clear 0", "live"]
+                out.append(("c07", ops))
+                j += 1
+    for k in (range(0, 26) if tier == "quick" else range(0, 80)):
+        for kind in (4, 1):
+            links = V.gen_links(rng, 1 + (k % 2), tiny=True)
+            out.append(("c07", ["case %d" % j, "live"] + links + ["open 0 1 4096 %d %d 0" % (k, kind), "live", "clear 0", "live", "clear 0", "live"]))
+            j += 1
+    return out
 
 
 def oracle(stream, ops, out):
@@ -175,6 +205,7 @@ def run(chk):
     for i in range(n):
         k = i % 3
         gens.append(enc_case(chk.rng, i) if k == 0 else dec_case(chk.rng, i, chk.tier) if k == 1 else file_case(chk.rng, i, chk.tier))
+    gens += seek_sweep(chk.rng, chk.tier)
     extra = common.load_corpus("C13", 100000)
     gens += [("c07", c) for c in extra]
     crash, ofail = [], []
@@ -185,11 +216,17 @@ def run(chk):
             cases = [ops for s, ops in gens if s == stream]
             if not cases:
                 continue
-            res = vlib.run_harness_only(stream, cases, variant=variant, timeout=2400)
+            lsan = {"ASAN_OPTIONS": vlib.SAN_ENV["ASAN_OPTIONS"].replace("detect_leaks=0", "detect_leaks=1") + ":leak_check_at_exit=0"} if (variant == "san" and stream == "c07") else None
+            res = vlib.run_harness_only(stream, cases, variant=variant, timeout=2400, env_extra=lsan)
             for r in res:
                 if r["c"] is None or (r["rc_c"] != 0 and r["err_c"]):
                     crash.append((stream, r))
                     continue
+                if lsan:
+                    # memory vorbisfile obtained through libogg (outside the counting allocator): unreachable blocks at a 'live' point
+                    bad = [l for l in r["c"] if l.startswith("live") and "lsan=" in l and V.kv(l).get("lsan") not in ("0", None)]
+                    if bad:
+                        ofail.append((stream, r, "leak: blocks that nothing points to any more after the calls of this case (sanitizer leak scan; includes what vorbisfile holds through libogg): " + bad[0]))
                 if variant == "cnt":
                     hist[stream] += 1
                     o = oracle(stream, r["ops"], r["c"])
@@ -209,7 +246,7 @@ def run(chk):
     chk.coverage["rule"] = ("three call-sequence families, each ending in the documented clear calls issued twice: (1) encoder: every template family (1-8 and 255/256/300 channels, "
                             "8-192 kHz and out-of-range rates, VBR/managed, NaN quality), ctl calls, setup_init once/twice/never, full encode, encode abandoned in mid-stream; "
                             "(2) packet decoder: generated set-ups valid/field-mutated/truncated, header prefixes, duplicated set-up, truncated identification header, init twice, packets, restart; "
-                            "(3) vorbisfile: chains damaged/truncated at random offsets, faults at callback k during open (5 kinds), ov_test + ov_test_open, failing seeks, half-rate, then ov_clear twice. "
+                            "(3) vorbisfile: chains damaged/truncated at random offsets, faults at callback k during open (5 kinds), ov_test + ov_test_open, failing seeks, half-rate, then ov_clear twice; every seek entry point with its k-th callback (seek / read error / zero read / tell) failing, and opens whose k-th callback fails one-shot, each followed by the clear calls. "
                             "All library allocations go through a counting allocator (variant cnt): live blocks must be 0 after the clear calls and directly after a failed one-step set-up / failed open, "
                             "no block may be freed twice or unknown; the same cases run under ASan; the close callback count is read from the data source")
     chk.coverage["cases_per_stream"] = hist
